@@ -45,6 +45,7 @@ def histories(run, r, uniq, n_hist, per_hist=12, framings=('tcp', 'rtu', 'ascii'
         for server in servers:
             for i in range(n_hist):
                 layout = gen_layout(r)
+                layout['single'] = True
                 hist = gen_history(r, layout, per_hist, uniq)
                 one(run, {'loopclient': True, 'framing': framing, 'server': server, 'layout': layout, 'history': hist}, prop)
 
